@@ -58,6 +58,8 @@ xv::Scenario queue_scenario(const drv::Program& p, bool keep) {
       bool ok = o.name == "push" ? A::push(Qr, std::move(v)) : A::wpush(Qr, std::move(v));
       xv::ret(ok, o.a);
       if (!ok && A::keeps_rejected) xv::ev("ev", E::id(v) == o.a ? "kept" : "lost", o.a);
+      // try_push takes its argument BY VALUE: a rejected owning element cannot stay with the caller (C07 known finding, decided by the check from this record)
+      if (!ok && !A::keeps_rejected && E::owned && E::id(v) != o.a) xv::ev("ev", "lostbv", o.a);
     } else if (o.name == "pop" || o.name == "wpop") {
       V v{};
       if (A::strong_blocks && o.name == "pop") xv::call_blocking("pop"); else xv::call(o.name.c_str());
